@@ -846,8 +846,10 @@ class Dict(dict, base.Symbolic, pg_typing.CustomTyping):
     """Update Dict with the same semantic as update on standard dict."""
     updates = dict(other) if other else {}
     updates.update(kwargs)
+    # Keys of `update` are plain keys (as for `dict.update`), not key paths.
     self.rebind(
-        updates, raise_on_no_change=False, skip_notification=True)
+        {utils.KeyPath(k): v for k, v in updates.items()},
+        raise_on_no_change=False)
 
   def __ior__(self, other: Any) -> 'Dict':   # pytype: disable=signature-mismatch
     """In-place union, with the same checks as `update`."""
